@@ -120,4 +120,15 @@ theorem mkWork_keyInj (dss : List (DS N)) (strats : List (Strat N))
     simp only [sk, hddCfg, Prod.mk.injEq] at e
     exact mkWork_inj dss strats hd hs a b ha hb e.1 e.2.1 e.2.2.2
 
+theorem mkWork_keyInj_ram (dss : List (DS N)) (strats : List (Strat N))
+    (hd : (dss.map (·.name)).Nodup) (hs : (strats.map (·.name)).Nodup) :
+    KeyInj (ramCfg N) (mkWork dss strats) := by
+  refine ⟨?_, ?_, mkWork_nodup dss strats hd hs⟩
+  · intro a ha b hb p q e
+    simp only [rk, ramCfg, Prod.mk.injEq] at e
+    exact ⟨mkWork_inj dss strats hd hs a b ha hb e.1 e.2.1 e.2.2.2, e.2.2.1⟩
+  · intro a ha b hb e
+    simp only [sk, ramCfg, Prod.mk.injEq] at e
+    exact mkWork_inj dss strats hd hs a b ha hb e.1 e.2.1 e.2.2.2
+
 end SkVerif.Orch.Lem
